@@ -16,12 +16,15 @@ def check_pipeline_shape(rep, facts, rule):
     """assemble: on every evaluated path the item list is threaded from pass to pass (each pass receives exactly the list the
     previous one returned), the front end only maps / filters in order, and the returned program is the result of the last
     call, which is the byte concatenation pass applied to the final list."""
-    from ..layout import pass_pipeline
+    from ..layout import pass_pipeline, item_passes
     pl = pass_pipeline(facts)
     fn = facts.funcs['assemble']
     n = 0
     for value, calls, returned in pl.all_paths_with_result():
-        chain = [c for c in calls if not c.mapped and c.name in facts.funcs and c.args and c.args[0][0] == 'items']
+        triples = item_passes(facts, calls)
+        chain = [c for nm, c, a in triples]
+        name_of = {id(c): nm for nm, c, a in triples}
+        items_of = {id(c): a for nm, c, a in triples}
         n = max(n, len(chain))
         if chain:
             rep.check(returned == chain[-1].result, rule, 'compress={}: assemble returns the result of its last pass'.format(value),
@@ -30,13 +33,13 @@ def check_pipeline_shape(rep, facts, rule):
         prev = None
         for c in chain:
             if prev is not None:
-                ok = c.args[0] == prev.result
-                rep.check(ok, rule, 'compress={}: {} consumes the list returned by {}'.format(value, c.name, prev.name),
+                ok = items_of[id(c)] == prev.result
+                rep.check(ok, rule, 'compress={}: {} consumes the list returned by {}'.format(value, name_of[id(c)], name_of[id(prev)]),
                           lambda c=c, prev=prev: Finding(rule, 'assemble', c.node, 'pass {} does not thread the item list (it receives {} instead of the result of {})'.format(
-                              c.name, c.args[0][:2], prev.name), line=getattr(c.node, 'lineno', fn.lineno)))
+                              name_of[id(c)], items_of[id(c)][:2], name_of[id(prev)]), line=getattr(c.node, 'lineno', fn.lineno)))
             prev = c
         last = chain[-1] if chain else None
-        concat = last is not None and last.name == 'resolve_blobs'
+        concat = last is not None and name_of[id(last)] == 'resolve_blobs'
         rep.check(concat, rule, 'compress={}: the last pass is the byte concatenation (resolve_blobs)'.format(value),
                   lambda last=last: Finding(rule, 'assemble', last.node if last else fn, 'the returned program is not the result of resolve_blobs on the final item list', line=fn.lineno))
     rep.count('pipeline steps', n)
@@ -49,7 +52,8 @@ def check_pipeline_shape(rep, facts, rule):
     rep.check(bool(rets), rule, 'assemble returns a value', lambda: Finding(rule, 'assemble', fn, 'assemble returns nothing', line=fn.lineno), nontrivial=False)
     # front-end comprehensions (wherever they live) only map / filter in order
     front = [fn] + [facts.funcs[c.name] for value, calls in pl.all_paths() for c in calls
-                    if c.name in facts.funcs and not c.mapped and not (c.args and c.args[0][0] == 'items') and c.name not in ('read_lines',)]
+                    if c.name in facts.funcs and not c.mapped and not any(isinstance(a, tuple) and a and a[0] == 'items' for a in c.args)
+                    and c.name not in ('read_lines',)]
     seen = set()
     for f in front:
         if id(f) in seen:
